@@ -117,6 +117,8 @@ func (s *SessionService) ActivateSession(sc *uasc.SecureChannel, r ua.Request, r
 		return nil, ua.StatusBadInternalError
 	}
 	sess.serverNonce = nonce
+	sess.activated = true
+	sess.channel = sc
 
 	response := &ua.ActivateSessionResponse{
 		ResponseHeader: responseHeader(req.RequestHeader.RequestHandle, ua.StatusOK),
